@@ -9,7 +9,7 @@ import z3
 from .sym import *  # noqa
 
 MODULES = {"re": "re", "string": "string", "math": "math", "copy": "copy", "sys": "sys", "nx": "nx", "pp": "pp",
-           "warnings": "warnings", "os": "os", "time": "time", "signal": "signal", "operator": "operator"}
+           "warnings": "warnings", "os": "os", "time": "time", "signal": "signal", "operator": "operator", "ruamel": "ruamel"}
 
 
 def module_attr(ex, mod, attr):
@@ -21,6 +21,8 @@ def module_attr(ex, mod, attr):
         return 2**63 - 1
     if mod.split(".")[0] == "nx" and attr in ("algorithms", "dag", "utils", "simple_paths"):
         return ModRef(mod + "." + attr)
+    if mod.split(".")[0] == "ruamel" and attr in ("yaml", "comments", "compat"):
+        return ModRef(mod + "." + attr)  # only ever reached through contract-supplied abstractions (ex.abstract["ruamel...."])
     if mod == "os" and attr == "path":
         return ModRef("os.path")
     if mod == "operator" and attr == "itemgetter":
@@ -682,8 +684,15 @@ def _copy(ex, v):
     return v
 
 
+def _defaultdict(ex, factory=None, *a):
+    import collections
+    if ((isinstance(factory, ClassRef) and factory.name == "list") or factory is _list) and not a:
+        return collections.defaultdict(list)  # the engine indexes dict subclasses natively: a missing key yields a fresh list
+    raise Unsupported("defaultdict with this factory")
+
+
 BUILTINS = {
-    "any": _any, "all": _all, "round": _round, "float": _float, "int": _int, "range": _range, "len": _len,
+    "defaultdict": _defaultdict, "any": _any, "all": _all, "round": _round, "float": _float, "int": _int, "range": _range, "len": _len,
     "enumerate": _enumerate, "chain": _chain, "isinstance": _isinstance, "bool": _bool, "sum": _sum,
     "max": _max, "min": _min, "zip": _zip, "set": _set, "list": _list, "tuple": _tuple, "sorted": _sorted,
     "abs": _abs, "str": _str, "next": _next_lazy, "hasattr": _hasattr, "callable": _callable,
